@@ -428,6 +428,16 @@ def _drive(obs, mgr, xfers, spec, mode, do_cancel):
             for x in xfers:
                 if x.future is not None:
                     x.outcome_after = _collect(x)
+        if spec.get('probe'):
+            # permits are returned by done-callbacks of the executor futures, which run just
+            # after result() is unblocked: probe at quiescence, as the statement says
+            with watchdog.polling():
+                obs.probe_quiescent = watchdog.wait_quiescent(5.0, director=w.director, need=3)
+            pr = watchdog.Obligation(lambda: capacity_probe(mgr, obs.config), name='probe').start()
+            if not _await(obs, pr.done.is_set, 'probe'):
+                return
+            obs.probe = pr.result
+            obs.probe_exc = pr.exc
         log.add('shutdown.begin')
         sh = watchdog.Obligation(lambda: mgr.shutdown(), name='shutdown').start()
         if not _await(obs, sh.done.is_set, 'shutdown'):
@@ -481,6 +491,50 @@ def _drive(obs, mgr, xfers, spec, mode, do_cancel):
             _record_outcomes(xfers)
             return
         _record_outcomes(xfers)
+
+
+class _ProbeTask:
+    transfer_id = 'vf-probe'
+
+    def __init__(self, gate):
+        self.gate = gate
+
+    def __call__(self, ctx=None):
+        self.gate.wait()
+
+
+def capacity_probe(mgr, cfg):
+    """Behavioural permit-conservation probe: each stage / tag semaphore must
+    accept exactly its configured number of gate-blocked no-op tasks with
+    block=False and refuse the next one."""
+    from s3transfer.futures import IN_MEMORY_DOWNLOAD_TAG, IN_MEMORY_UPLOAD_TAG
+    from s3transfer.utils import NoResourcesAvailable
+
+    plan = [
+        ('request', mgr._request_executor, None, cfg.max_request_queue_size),
+        ('submission', mgr._submission_executor, None, cfg.max_submission_queue_size),
+        ('io', mgr._io_executor, None, cfg.max_io_queue_size),
+        ('in_memory_upload', mgr._request_executor, IN_MEMORY_UPLOAD_TAG, cfg.max_in_memory_upload_chunks),
+        ('in_memory_download', mgr._request_executor, IN_MEMORY_DOWNLOAD_TAG, cfg.max_in_memory_download_chunks),
+    ]
+    out = {}
+    for name, ex, tag, expected in plan:
+        gate = threading.Event()
+        futs = []
+        accepted = 0
+        try:
+            while accepted <= expected + 2:
+                try:
+                    futs.append(ex.submit(_ProbeTask(gate), tag=tag, block=False))
+                    accepted += 1
+                except NoResourcesAvailable:
+                    break
+        finally:
+            gate.set()
+            for f in futs:
+                f.result()
+        out[name] = (accepted, expected)
+    return out
 
 
 def _record_outcomes(xfers):
